@@ -65,7 +65,10 @@ def run(ctx):
         for _ in range(16 if ctx.quick() else 200):
             probs.append({"admm": True, "N": ctx.rng.choice([1, 2, 3]), "W": ctx.rng.choice([1, 2, 3, 6]),
                           "lam": ctx.rng.choice(["1/2", "1/4", "1", "2", "1/10", "11/100", "3/10"]),
-                          "seed": ctx.rng.randrange(2 ** 31)})
+                          "seed": ctx.rng.randrange(2 ** 31),
+                          # the documented solver options, the same for every form: another step parameter, and a
+                          # step-parameter update hook (residual balancing / a fixed schedule) that really changes it
+                          "solver": ["default", "default", "rho", "balance", "schedule"][len(probs) % 5]})
         cfgs = [c for c in ctx.corpus if c.get("lens")] + [tu.gen_config(ctx.rng) for _ in range(5 if ctx.quick() else 50)]
     for c in probs:
         N, W = c["N"], c["W"]
@@ -82,11 +85,27 @@ def run(ctx):
         if float(np.float16(lam)) == lam:
             forms += [("np.float16", np.float16(lam))]
         outs = {}
+
+        def solver_kwargs(kind=c.get("solver", "default")):
+            if kind == "rho":
+                return {"rho": 2.0}
+            if kind == "balance":
+                return {"rho": 1.0, "rho_update": (lambda rho_, rp, tp, rd, td:
+                                                   rho_ * 2 if rp > 10 * rd else (rho_ / 2 if rd > 10 * rp else rho_))}
+            if kind == "schedule":
+                seen = {"n": 0}
+
+                def cb(rho_, rp, tp, rd, td, _s=seen):
+                    _s["n"] += 1
+                    return rho_ * 2.0 if _s["n"] in (2, 3, 5) else rho_
+                return {"rho": 0.5, "rho_update": cb}
+            return {}
+        ctx.count("solver_options:" + c.get("solver", "default"))
         for name, f in forms:
             try:
                 with warnings.catch_warnings():
                     warnings.simplefilter("ignore")
-                    outs[name] = np.asarray(admm.admm_optimize_theta(S.copy(), f, W, N).theta)
+                    outs[name] = np.asarray(admm.admm_optimize_theta(S.copy(), f, W, N, **solver_kwargs()).theta)
             except Exception as e:
                 ctx.violation("impl-violation", f"sparsity weight form {name} raised {type(e).__name__}: {e}",
                               dict(c, form=name), {"site": "form-rejected"})
